@@ -26,6 +26,7 @@ from vlib import OkV, REPO, VERIF, PY, ensure_repo_on_path, coq_str
 sys.path.insert(0, os.path.dirname(os.path.abspath(__file__)))
 import c30_scan      # noqa: E402
 import c30_programs  # noqa: E402
+import c30_state_scan  # noqa: E402
 
 LEVEL = 'other'
 RULE = ('OrderedSet correspondence: random operation histories (add/discard/remove/pop/clear/|=/-=/&=, length <= 14, '
@@ -44,7 +45,11 @@ EXPLANATION = ('Partial: Coq theorems cover the OrderedSet class (incl. the __re
                '(x86_64, arm, riscv; stm8/mcs6500 only fail consistently), the wasm module bytes (ir_to_wasm), the '
                'generated python text (ir_to_python, minus its wall-clock header line), the IR text after '
                'api.optimize at levels 0/1/2 and the text emitted by the BURG generator; the ast site inventory '
-               '(80 sites, all classified) against a reviewed table detects newly introduced unordered iterations.')
+               '(all classified) against a reviewed table detects newly introduced unordered iterations. Process history is a '
+               'second search dimension on every run: a worker builds every hand-written sample for arm, arm:thumb, x86_64, '
+               'riscv, xtensa, msp430 (plus wasm/python/IR text) twice in one process, the second time in the opposite order, '
+               'and after an unrelated module (perturbed workers); a second ast inventory (c30_state_scan.py, table '
+               'c30_state_sites.json) lists class-level/module-level mutable state written inside functions, a new site fails.')
 TRUSTED = ['hand models coq/Model/OrderedSet.v and coq/Model/C30Sites.v (OrderedSet checked against the class per run; '
            'place_phi_nodes checked against the real method with hash-controlled fake blocks per run; assign_color, '
            'callee_saved, reg_list_to_mask, check_tree_defined (burg), follows_loop (relooper) by reading)',
@@ -71,9 +76,32 @@ def regen(ctx):
             'From Coq Require Import String List ZArith.\nImport ListNotations.\nOpen Scope Z_scope.\n'
             'Definition c30_sites : list (string * Z * string * string) := [\n%s\n].\n'
             'Definition c30_site_count : nat := length c30_sites.\n' % ';\n'.join(rows))
+    st_sites, st_files = c30_state_scan.scan(REPO)
+    rows2 = ['  (%s, %d, %s, %s)' % (coq_str(s['file']), s['line'], coq_str(s['function']), coq_str(s['kind']))
+             for s in st_sites]
+    text += ('(* class-level / module-level mutable state written inside functions (tools/props/c30_state_scan.py) *)\n'
+             'Definition c30_state_sites : list (string * Z * string * string) := [\n%s\n].\n' % ';\n'.join(rows2))
     ctx.write_gen('C30_sites', text)
     ctx.cov['stages']['site_scan'] = {'files': nfiles, 'sites': len(sites)}
+    ctx.cov['stages']['state_scan'] = {'files': st_files, 'sites': len(st_sites)}
+    state_table_check(ctx, st_sites)
     return sites
+
+
+def state_table_check(ctx, st_sites):
+    """process-lifetime mutable state: every scanned site needs a reviewed entry in c30_state_sites.json"""
+    entries = json.load(open(os.path.join(VERIF, 'tools', 'props', 'c30_state_sites.json')))['sites']
+    new = [s for s in st_sites if s['key'] not in entries]
+    rel = [s for s in st_sites if entries.get(s['key'], {}).get('class') == 'history_relevant']
+    ctx.cov['stages']['state_table'] = {'reviewed': len(st_sites) - len(new), 'new': len(new), 'history_relevant': len(rel)}
+    for s in new[:10]:
+        ctx.log('NEW class/module-level mutable state written during compilation (not in c30_state_sites.json): '
+                '%s:%d %s [%s] %s' % (s['file'], s['line'], s['function'], s['kind'], s['target']))
+    if new:
+        ctx.failed_stages.append(('state', '%d new site(s) writing class-level/module-level state (output may depend on the '
+                                  'process history), first: %s:%d %s [%s] %s' % (
+                                      len(new), new[0]['file'], new[0]['line'], new[0]['function'], new[0]['kind'],
+                                      new[0]['target'])))
 
 
 def load_table():
@@ -564,7 +592,45 @@ def search_start(ctx):
     for c in configs:
         outp = os.path.join(priv, 'search_%d_%d.json' % c)
         procs.append((c, run_worker_async({'perturb': c[1], 'jobs': jobs, 'ir': irjobs}, c[0], outp), outp))
+    outp = os.path.join(priv, 'search_hist.json')
+    procs.append((('hist', 0), run_worker_async({'perturb': 0, 'jobs': history_jobs(jobs, sources), 'ir': [],
+                                                 'second_pass': True}, 0, outp), outp))
     return (jobs, irjobs, sources, configs, t0, procs)
+
+
+def _mkrec(jid, cfgs, res, sources, what):
+    isir = jid.startswith('ir:')
+    prog = jid[3:] if isir else jid.split('/')[0]
+    parts = jid.split('/')
+    march = parts[1] if len(parts) > 1 else None
+    kind = {'wasm': ('wasm_bytes', 'wasm module bytes (ir_to_wasm)'),
+            'python': ('python_text', 'generated python text (ir_to_python)'),
+            'irtext': ('ir_text', 'optimized IR text'),
+            'sample4.brg': ('burg_generator_text', 'text emitted by the BURG generator')}.get(
+        march, ('ir_text', 'optimized IR text') if isir else ('object_bytes', 'serialized object file'))
+    rec = {'fn': kind[0], 'key': kind[0] + '/' + jid, 'job': jid, 'program': prog,
+           'march': march, 'opt': parts[2] if len(parts) > 2 else 'O2', 'configs': cfgs, 'results': res,
+           'source': sources.get(prog) if not prog.startswith('c3-') else 'C3 sample set ' + prog,
+           'what': kind[1] + ' ' + what, 'how_to_replay': './check C30 --replay <this file>'}
+    if kind[0] == 'burg_generator_text':
+        rec['key'] = 'burg_generator_text'
+    return rec
+
+
+HIST_TARGETS = ['arm', 'arm:thumb', 'x86_64', 'riscv', 'xtensa', 'msp430']
+
+
+def history_jobs(jobs, sources):
+    """process-history dimension: hand-written programs for HIST_TARGETS at -O2 plus their wasm/python/IR-text jobs;
+    the worker builds the whole list, then builds it again in the opposite order in the same process"""
+    hand = [n for n in sources if n in ('loops', 'pressure', 'calls', 'structs', 'control', 'mem2reg', 'literals')]
+    out = []
+    for name in sorted(hand):
+        for march in HIST_TARGETS:
+            out.append({'id': '%s/%s/O2' % (name, march), 'lang': 'c', 'src': sources[name], 'march': march, 'opt': 2})
+    out += [j for j in jobs if j.get('backend') in ('wasm', 'python', 'irtext') and j['id'].split('/')[0] in hand
+            and j['opt'] == 2]
+    return out
 
 
 def search(ctx, started=None):
@@ -577,7 +643,7 @@ def search(ctx, started=None):
         except Exception as ex:   # noqa: BLE001
             err = ''
             ctx.log('search worker failed for seed/perturb', c, repr(ex), err)
-            ctx.failed_stages.append(('search', 'worker for PYTHONHASHSEED=%d perturb=%d did not produce a result: %s' % (
+            ctx.failed_stages.append(('search', 'worker for PYTHONHASHSEED=%s perturb=%s did not produce a result: %s' % (
                 c[0], c[1], err[-300:])))
     if procs:
         import shutil
@@ -595,27 +661,35 @@ def search(ctx, started=None):
                 ncmp += 1
                 if _norm(base[jid]) != _norm(r.get(jid)):
                     ndiff += 1
-                    isir = jid.startswith('ir:')
-                    prog = jid[3:] if isir else jid.split('/')[0]
-                    parts = jid.split('/')
-                    march = parts[1] if len(parts) > 1 else None
-                    kind = {'wasm': ('wasm_bytes', 'wasm module bytes (ir_to_wasm)'),
-                            'python': ('python_text', 'generated python text (ir_to_python)'),
-                            'irtext': ('ir_text', 'optimized IR text'),
-                            'sample4.brg': ('burg_generator_text', 'text emitted by the BURG generator')}.get(
-                        march, ('ir_text', 'optimized IR text') if isir else ('object_bytes', 'serialized object file'))
-                    rec = {'fn': kind[0], 'key': kind[0] + '/' + jid,
-                           'job': jid, 'program': prog,
-                           'march': march, 'opt': parts[2] if len(parts) > 2 else 'O2',
-                           'configs': [{'PYTHONHASHSEED': base_c[0], 'perturb': base_c[1]},
-                                       {'PYTHONHASHSEED': c[0], 'perturb': c[1]}],
-                           'results': [base[jid], r.get(jid)],
-                           'source': sources.get(prog) if not prog.startswith('c3-') else 'C3 sample set ' + prog,
-                           'what': kind[1] + ' differs between two interpreter configurations',
-                           'how_to_replay': './check C30 --replay <this file>'}
-                    if kind[0] == 'burg_generator_text':
-                        rec['key'] = 'burg_generator_text'
+                    rec = _mkrec(jid, [{'PYTHONHASHSEED': base_c[0], 'perturb': base_c[1]},
+                                       {'PYTHONHASHSEED': c[0], 'perturb': c[1]}], [base[jid], r.get(jid)], sources,
+                                 'differs between two interpreter configurations')
+                    rec['tier'] = ctx.tier
                     ctx.violation(rec)
+    # process history: second build in the same process / opposite order (#2) and fresh-process base
+    hist = results.get(('hist', 0))
+    nh, nhd = 0, 0
+    if hist is not None:
+        for jid in sorted(k for k in hist if not k.endswith('#2')):
+            pairs = [(hist.get(jid + '#2'), [{'PYTHONHASHSEED': 0, 'perturb': 0, 'history': 'first build in a fresh process (after the jobs listed before it)'},
+                                            {'PYTHONHASHSEED': 0, 'perturb': 0, 'history': 'second build of the same input in the same process, inputs in the opposite order'}],
+                      'differs between the first and the second build in one process')]
+            if base is not None and jid in base:
+                pairs.append((base[jid], [{'PYTHONHASHSEED': 0, 'perturb': 0, 'history': 'history worker, first pass'},
+                                          {'PYTHONHASHSEED': 0, 'perturb': 0, 'history': 'search worker (other inputs compiled before)'}],
+                              'differs between two processes that compiled different inputs before'))
+            for other, cfgs, what in pairs:
+                nh += 1
+                if _norm(hist[jid]) != _norm(other):
+                    nhd += 1
+                    rec = _mkrec(jid, cfgs, [hist[jid], other], sources, what)
+                    rec['history'] = True
+                    rec['tier'] = ctx.tier
+                    ctx.violation(rec)
+    ncmp += nh
+    ndiff += nhd
+    ctx.cov['stages']['search_history'] = {'jobs': len(hist or {}) // 2, 'comparisons': nh, 'differences': nhd,
+                                           'targets': HIST_TARGETS}
     ctx.cov['evaluations'] += ncmp
     ctx.cov['distinct_nontrivial'] += len(jobs) - nerr
     ctx.cov['stages']['search'] = {'jobs': len(jobs), 'ir_jobs': len(irjobs), 'configs': [list(c) for c in configs],
@@ -635,7 +709,20 @@ def replay(rec):
     ctx = types.SimpleNamespace(quick=lambda: False)
     jobs, irjobs, _ = job_list(ctx, True)
     jid = rec['job']
-    job = {'jobs': [j for j in jobs if j['id'] == jid], 'ir': [j for j in irjobs if 'ir:' + j['id'] == jid], 'dump': jid}
+    if rec.get('history'):
+        _, _, sources = job_list(ctx, False)
+        qjobs, _, _ = job_list(ctx, False)
+        hj = history_jobs(qjobs, sources)
+        p = run_worker_async({'perturb': 0, 'jobs': hj, 'ir': [], 'second_pass': True}, 0)
+        out = json.loads(p.stdout.read())
+        p.wait()
+        same = _norm(out.get(jid)) == _norm(out.get(jid + '#2'))
+        print('job %s, first vs second build in one process (history worker): %s' % (jid, 'IDENTICAL' if same else 'DIFFERENT'))
+        print(out.get(jid), out.get(jid + '#2'))
+        return 0 if same else 1
+    # the whole job list of the tier is re-run (the result may depend on what was compiled before in the process)
+    jobs, irjobs, _ = job_list(ctx, rec.get('tier') == 'thorough')
+    job = {'jobs': jobs, 'ir': irjobs, 'dump': jid}
     outs = []
     for c in rec['configs']:
         p = run_worker_async(dict(job, perturb=c['perturb']), c['PYTHONHASHSEED'])
@@ -690,7 +777,9 @@ MANIFEST = {
             'does not. Everything else is search: a fixed program set compiled in fresh interpreters under several '
             'PYTHONHASHSEED values and allocation histories with byte comparison of serialized objects, wasm bytes, generated '
             'python text, optimized IR text per level and BURG generator text, plus an ast inventory of set/dict enumeration '
-            'sites (all classified) checked against a reviewed table.',
+            'sites (all classified) checked against a reviewed table; the same outputs are also compared between the first and a '
+            'second build in one process (inputs in opposite order) and after unrelated compilations, and an inventory of '
+            'class/module-level state written during compilation is checked against a second reviewed table.',
     'note': 'trusted: Coq kernel; hand models (OrderedSet cross-checked per run on ~800 random cases incl. adversarial __hash__; '
             'place_phi_nodes cross-checked with hash-controlled fake blocks; burg check / follows_loop / assign_color / '
             'callee_saved / mask models by reading); CPython hashing/id()/allocator are not modelled; the site scanner is a '
